@@ -5,6 +5,10 @@ root-field sets x name filters); E1 enumerates every choice path (bounded deviat
 ``schema[Type][field].as_strategy(...)``; an oracle that uses only graphql-core (parse / validate against a schema
 built here from the SDL / an own AST walk) judges every produced case.  Offered operations and the statistic are
 compared with a reference computed from the enumerated item itself.
+
+Review round 2 (see detection/C20.md): default values and nested custom scalars in the grammar, kind 'entry' (every entry
+point of one schema object, both access orders, every label looked up twice, strategies of maps and of the schema), kind
+'multi' (two schema objects alive at once; sequences of stored / per-call settings on one object), letter-case variants.
 """
 
 from __future__ import annotations
@@ -31,13 +35,20 @@ RULE = (
     "(with equal names across roots) x root naming x loader x name filter chain). For 'gen' every choice path of the real "
     "strategy with <=d non-default PRNG answers is executed for every generation config (graphql_allow_null x allow_x00 x codec) "
     "and every rotation of the character alphabet; a case is non-trivial when its document carries at least one argument "
-    "literal; distinct = distinct (schema, loader, config, document)"
+    "literal; distinct = distinct (schema, loader, config, document). Review round 2: arguments and input fields with default values "
+    "(neutral and empty defaults included) and custom scalars nested in lists / input objects, each from SDL and from introspection; "
+    "kind 'entry': one schema object through every entry point (get_all_operations twice, statistic before/after, len, iteration of "
+    "the mapping, schema[T][f] twice incl. through a held map, schema[T].as_strategy, schema.as_strategy with per-call settings) in "
+    "both access orders, a Subscription root that shares a field name, names differing only in letter case; kind 'multi': two "
+    "schema objects alive at once drawn alternately, and sequences of stored / per-call settings on one schema object"
 )
 BOUNDS = {
-    "quick": {"d": 1, "d_single_argument": 2, "max_args": 2, "pair_types": 16, "single_types": 30, "max_exec_per_tree": 600, "root_fields_per_type": 2,
-              "filter_chain": 2},
+    "quick": {"d": 1, "d_single_argument": 2, "max_args": 2, "pair_types": 16, "single_types": 35, "max_exec_per_tree": 600, "root_fields_per_type": 2,
+              "filter_chain": 2, "default_value_shapes": 17, "nested_custom_scalar_shapes": 10, "entry_point_d": 2, "access_orders": 2,
+              "lookups_per_label": 2, "schemas_alive": 2, "setting_sequences": 4, "setting_sequence_steps": 6},
     "thorough": {"d": 2, "d_single_argument": 3, "max_args": 2, "pair_types": 16, "single_types": 35, "max_exec_per_tree": 6000, "root_fields_per_type": 2,
-                 "filter_chain": 2},
+                 "filter_chain": 2, "default_value_shapes": 17, "nested_custom_scalar_shapes": 10, "entry_point_d": 2, "access_orders": 2,
+                 "lookups_per_label": 2, "schemas_alive": 2, "setting_sequences": 4, "setting_sequence_steps": 6},
 }
 BUDGET_S = {"quick": 140, "thorough": 3000}
 CHUNK = 2
@@ -64,6 +75,12 @@ ASSUMPTIONS = [
     "literal); for a scalar registered by the harness the form is the one the registered strategy was built from",
     "name_regex filters are enumerated only where search/match/fullmatch semantics agree (fully anchored patterns)",
     "an unregistered *required* custom scalar makes the strategy raise InvalidArgument; the property is silent on that, it is counted",
+    "a per-call generation config takes the place of the stored one; where the two disagree and the per-call one is the permissive one, "
+    "nothing is demanded of that draw",
+    "the mapping interface (iteration of schema / schema[T], schema[T].as_strategy) is judged on unfiltered schemas only; "
+    "schema.as_strategy() over zero selected operations is not judged",
+    "'every offered operation gets a case' is claimed for the strategies of a map / a schema only on trees that were not capped, "
+    "where every alternative of the first choice point (the operation) was taken",
 ]
 
 # ------------------------------------------------------------------------------------------------------------------
@@ -80,6 +97,11 @@ DEFS: dict[str, tuple[str, list[str]]] = {
     "T1": ("type T1 implements If { id: ID, t(p: E): Int }", ["If", "E"]),
     "T2": ("type T2 implements If { id: ID, u: String }", ["If"]),
     "U": ("union U = O | T1", ["O", "T1"]),
+    # review round 2: input fields with default values (written-out neutral / empty defaults included), custom scalars one
+    # level deeper (inside an input object: built-in custom, registered, in a list), an unregistered scalar as an optional input field
+    "D": ('input D { a: Int! = 1, e: E = A, l: [Int!]! = [1], s: String = "", k: Boolean = false }', ["E"]),
+    "C": ("input C { d: Date, f: Foo!, u: [UUID!], n: Cnt }", ["Date", "Foo", "UUID", "Cnt"]),
+    "B": ("input B { x: Bar, y: Int }", ["Bar"]),
 }
 BUILTIN_SCALARS = {"Int", "Float", "String", "ID", "Boolean"}
 KNOWN_CUSTOM = ["Date", "Time", "DateTime", "IP", "IPv4", "IPv6", "BigInt", "Long", "UUID"]
@@ -95,8 +117,16 @@ REGISTERED_FORMS = {
 
 PAIR_TYPES = ["Int", "Int!", "String", "String!", "Boolean", "Float", "ID", "[Int!]", "[String]", "E", "I", "N", "Date", "DateTime",
               "UUID", "Foo"]
-SINGLE_TYPES_QUICK = ["R", "Time", "IP", "IPv4", "IPv6", "BigInt", "Long", "Foo!", "Cnt", "Bar", "[I]", "[E!]", "N!", "I!"]
-SINGLE_TYPES_THOROUGH = ["Boolean!", "Float!", "ID!", "[Int!]!", "[[Int]]"]
+SINGLE_TYPES_QUICK = ["R", "Time", "IP", "IPv4", "IPv6", "BigInt", "Long", "Foo!", "Cnt", "Bar", "[I]", "[E!]", "N!", "I!",
+                      # review round 2: the former thorough-only singles are cheap, they are enumerated in both tiers now
+                      "Boolean!", "Float!", "ID!", "[Int!]!", "[[Int]]"]
+SINGLE_TYPES_THOROUGH: list[str] = []
+# review round 2: arguments with default values (each loaded from SDL and from introspection JSON, where the default travels as text)
+DEFAULT_TYPES = ["Int = 1", "Int! = 1", "Int = null", "String = \"\"", "Boolean = false", "E = A", "E! = B", "[Int!]! = [1]", "[Int!] = []",
+                 "I = {b: \"x\"}", "D", "D! = {}", "Date = \"2000-01-01\"", "Cnt! = 2"]
+DEFAULT_PAIRS = [["Int! = 1", "E = A"], ["[Int!]! = [1]", "D"], ["String = \"\"", "Int!"]]
+# review round 2: custom scalars nested in lists / input objects
+NESTED_CUSTOM_TYPES = ["[Date!]", "[Foo]", "[Cnt!]!", "[UUID]", "C", "C!", "[C!]", "B", "B!"]
 RETURNS = ["Int", "E", "Date", "O", "[O]", "[O!]!", "If", "U", "[U]"]
 RET_ARGSETS = [[], ["Int"], ["I!", "E"]]
 
@@ -106,7 +136,8 @@ ROT_STRINGS_THOROUGH = [["\x00", "é", "a", '"'], ["é", '"', "\x00", "\\"], ["a
 
 
 def _named(type_sdl: str) -> str:
-    return re.sub(r"[\[\]!]", "", type_sdl)
+    """Named type of an argument spec of the grammar ('[Int!]! = [1]' -> 'Int'; the part after '=' is a default value)."""
+    return re.sub(r"[\[\]!]", "", type_sdl.split("=", 1)[0]).strip()
 
 
 def _closure(names: list[str]) -> list[str]:
@@ -160,13 +191,13 @@ def ops_sdl(item: dict) -> tuple[str, dict]:
         labels += [f"{mn}.{n}" for n in item["m"]]
         kinds.update({f"{mn}.{n}": "mutation" for n in item["m"]})
     if item["sub"]:
-        parts.append(f"type {sn} {{ s: Int }}")
+        parts.append(f"type {sn} {{ {item.get('sf', 's')}: Int }}")
     return "\n".join(parts), {"labels": labels, "kinds": kinds}
 
 
 def _is_stringy(args: list[str], ret: str) -> bool:
     """Can a String/ID literal appear in an argument position reachable from the field? (computed from the grammar)"""
-    stringy_inputs = {"String", "ID", "I", "N"}
+    stringy_inputs = {"String", "ID", "I", "N", "D"}
     if any(_named(t) in stringy_inputs for t in args):
         return True
     return _named(ret) in ("O", "U")  # O.y(s: String)
@@ -189,7 +220,7 @@ def _cfgs(tier: str, stringy: bool) -> list[dict]:
 
 
 def _registered_for(args: list[str], ret: str) -> dict:
-    names = {_named(t) for t in args} | {_named(ret)}
+    names = set(_closure([_named(t) for t in args] + [_named(ret)]))
     reg = {}
     if "Foo" in names:
         reg["Foo"] = "foo"
@@ -262,6 +293,14 @@ def items(tier: str, seed: int) -> list[dict]:
     for source in ("sdl_io", "introspection_data", "introspection_json", "introspection_min"):
         out.append({"kind": "gen", "args": ["N", "Foo"], "ret": "U", "root": "mutation", "source": source, "route": "arg",
                     "registered": {"Foo": "foo"}, "cfgs": _cfgs(tier, True), "d": d})
+    # --- review round 2 / kind gen: default values and nested custom scalars, each from SDL text and from introspection JSON
+    extra_shapes = [[t] for t in DEFAULT_TYPES] + DEFAULT_PAIRS + [[t] for t in NESTED_CUSTOM_TYPES] + [["C", "[Date!]"]]
+    for n, args in enumerate(extra_shapes):
+        for k, source in enumerate(("sdl", "introspection")):
+            out.append({"kind": "gen", "args": args, "ret": "Int", "root": "query" if (n + k) % 2 == 0 else "mutation", "source": source,
+                        "route": "arg" if k == 0 else "schema", "registered": _registered_for(args, "Int"),
+                        "cfgs": _cfgs(tier, _is_stringy(args, "Int")), "d": d})
+    out += _entry_items() + _multi_items()
     # --- kind ops: root field sets x naming x loader x filter chains
     namings = [(["Query", "Mutation", "Subscription"], False), (["Query", "Mutation", "Subscription"], True), (["Q", "M", "S"], True)]
     for q in (["a"], ["a", "b"]):
@@ -274,7 +313,79 @@ def items(tier: str, seed: int) -> list[dict]:
                         sources += ["sdl_io", "introspection_data", "introspection_json", "introspection_min"]
                     for source in sources:
                         out.append({"kind": "ops", "q": q, "m": m, "names": names, "sub": sub, "source": source, "filters": chain})
+    # --- review round 2 / kind ops: field names that differ only in letter case (GraphQL names are case-sensitive), within one root
+    # and across the roots; a Subscription root whose field has the name of a Query field (must not be counted nor offered)
+    for q, m, names, sub, sf in CASE_AND_SUB_VARIANTS:
+        _, facts = ops_sdl({"q": q, "m": m, "names": names, "sub": sub, "sf": sf})
+        for chain in _filters(facts["labels"], names):
+            for source in ("sdl", "introspection"):
+                out.append({"kind": "ops", "q": q, "m": m, "names": names, "sub": sub, "sf": sf, "source": source, "filters": chain})
     return out
+
+
+CASE_AND_SUB_VARIANTS = [
+    (["a", "A"], ["A"], ["Query", "Mutation", "Subscription"], False, "s"),
+    (["a"], ["A", "a"], ["Q", "M", "S"], True, "A"),
+    (["a"], ["a"], ["Query", "Mutation", "Subscription"], True, "a"),
+    (["a", "b"], None, ["Q", "M", "S"], True, "a"),
+]
+
+
+def _entry_items() -> list[dict]:
+    """Review round 2 / kind 'entry': the same operations through every entry point, in both access orders, each looked up twice."""
+    out = []
+    qm = [(["a"], None), (["a"], ["a"]), (["a", "b"], ["a"]), (["a", "b"], ["b", "a"]), (["a"], ["a", "c"]), (["b", "a"], ["c"]),
+          (["a", "A"], ["A"])]
+    namings = [(["Query", "Mutation", "Subscription"], True, "a"), (["Q", "M", "S"], True, "s"), (["Query", "Mutation", "Subscription"], False, "s")]
+    n = 0
+    for q, m in qm:
+        for names, sub, sf in namings:
+            _, facts = ops_sdl({"q": q, "m": m, "names": names, "sub": sub, "sf": sf})
+            labels = facts["labels"]
+            chains = [[], [{"op": "include", "name": labels[-1]}], [{"op": "exclude", "name_regex": r"^.*\.a$"}]]
+            for chain in chains:
+                n += 1
+                for order in ("fwd", "rev"):
+                    out.append({"kind": "entry", "q": q, "m": m, "names": names, "sub": sub, "sf": sf,
+                                "source": "sdl" if n % 2 else "introspection", "filters": chain, "order": order})
+    return out
+
+
+def _multi_items() -> list[dict]:
+    """Review round 2 / kind 'multi': two schemas alive in one process; stored and per-call settings one after the other on one object."""
+    out = []
+    pairs = [(["Int"], ["String!"], "query", "query"), (["I"], ["E", "Int!"], "mutation", "mutation"), (["Date"], ["Date"], "query", "query"),
+             (["String"], ["[Int!]"], "query", "mutation")]
+    for args_a, args_b, root_a, root_b in pairs:
+        for src_a, src_b in (("sdl", "sdl"), ("sdl", "introspection"), ("introspection", "sdl")):
+            for draws in (["A", "B", "A"], ["B", "A", "B"]):
+                out.append({"kind": "multi", "mode": "two", "a": {"args": args_a, "ret": "Int", "root": root_a, "source": src_a},
+                            "b": {"args": args_b, "ret": "Int", "root": root_b, "source": src_b}, "draws": draws})
+    # B is a filtered clone of A (schema.include(...)) that is then given other settings than A
+    for args, root in ((["Int"], "query"), (["I"], "mutation")):
+        for src in ("sdl", "introspection"):
+            for draws in (["A", "B", "A"], ["B", "A", "B"]):
+                spec = {"args": args, "ret": "Int", "root": root, "source": src}
+                out.append({"kind": "multi", "mode": "two", "a": spec, "b": spec, "b_from": "clone", "draws": draws})
+    for n, args in enumerate([["Int"], ["String"], ["I"], ["[Int!]", "E"]]):
+        for seq in sorted(CONFIG_SEQUENCES):
+            for hold in (True, False):
+                out.append({"kind": "multi", "mode": "seq", "args": args, "ret": "Int", "root": "query" if n % 2 == 0 else "mutation",
+                            "source": "sdl" if hold else "introspection", "seq": seq, "hold": hold})
+    return out
+
+
+# generation settings: "off" = nulls disabled, NUL disabled, ascii; "on" = nulls allowed, NUL allowed, utf-8
+_OFF = {"allow_null": False, "allow_x00": False, "codec": "ascii", "rot": 0}
+_ON = {"allow_null": True, "allow_x00": True, "codec": "utf-8", "rot": 0}
+# steps: ["store", cfg] = schema.configure(generation=cfg); ["draw", cfg|None] = as_strategy(generation_config=cfg) resp. as_strategy()
+CONFIG_SEQUENCES = {
+    "stored_off__call_on__plain": [["store", _OFF], ["draw", _ON], ["draw", None]],
+    "stored_on__call_off__plain__call_off": [["store", _ON], ["draw", _OFF], ["draw", None], ["draw", _OFF]],
+    "stored_off__plain__stored_on__plain__stored_off__plain": [["store", _OFF], ["draw", None], ["store", _ON], ["draw", None], ["store", _OFF],
+                                                                ["draw", None]],
+    "plain__call_off__stored_off__call_on__plain": [["draw", None], ["draw", _OFF], ["store", _OFF], ["draw", _ON], ["draw", None]],
+}
 
 
 # ------------------------------------------------------------------------------------------------------------------
@@ -589,6 +700,8 @@ def judge(res: Result, ref: Any, case: Any, expect: dict, cfg: dict, registered:
             continue
         problem = _form_problem(name, node, registered)
         res.count(f"custom_literal_checked[{name if cat == 'custom_builtin' else cat}]")
+        if where in ("list_item", "input_field"):
+            res.count("custom_literal_nested_checked")
         if problem is not None:
             res.violation({**base, "kind": "custom_scalar_literal_off_form", "scalar": name, "declared": cat}, detail | {"problem": problem})
     # coverage facts
@@ -686,6 +799,10 @@ def check_item(item: dict, tier: str) -> Result:
     common.reset_schemathesis_caches()
     if item["kind"] == "gen":
         return _check_gen(item, tier)
+    if item["kind"] == "entry":
+        return _check_entry(item, tier)
+    if item["kind"] == "multi":
+        return _check_multi(item, tier)
     return _check_ops(item, tier)
 
 
@@ -710,6 +827,7 @@ def _check_gen(item: dict, tier: str) -> Result:
     ref = graphql.build_schema(sdl)
     stringy = _is_stringy(item["args"], item["ret"])
     unregistered = [t for t in item["args"] if _named(t) == "Bar"]
+    has_default = any("=" in t or _named(t) == "D" for t in item["args"])
     base = {"item": "gen"}
     try:
         schema = load_real(sdl, item["source"])
@@ -748,6 +866,8 @@ def _check_gen(item: dict, tier: str) -> Result:
                 valid += 1
                 res.traces += 1
                 judge(res, ref, ex.value, expect, cfg, registered, base | _shape_facts(item), detail | {"choices": ex.choices, "chars": chars})
+                if has_default:
+                    res.count("cases_from_argument_with_default")
             elif ex.status == "error":
                 res.count(f"generation_error[{type(ex.error).__name__}]")
         res.states += stats.nodes
@@ -826,6 +946,275 @@ def _check_ops(item: dict, tier: str) -> Result:
 
 
 # ------------------------------------------------------------------------------------------------------------------
+# review round 2: entry points / access order (kind 'entry'), two schemas and setting sequences (kind 'multi')
+# ------------------------------------------------------------------------------------------------------------------
+
+
+def _explore_judged(res: Result, strategy: Any, chars: list[str], d: int, tier: str, on_case: Any) -> Stats:
+    stats = Stats()
+    for ex in explore(draw_strategy(strategy), Alphabet(chars=chars), d, max_executions=BOUNDS[tier]["max_exec_per_tree"], stats=stats):
+        res.evaluations += 1
+        res.outcomes.add(ex.status)
+        if ex.status == "valid":
+            res.traces += 1
+            on_case(ex)
+        elif ex.status == "error":
+            res.count(f"generation_error[{type(ex.error).__name__}]")
+    res.states += stats.nodes
+    res.transitions += stats.edges
+    if stats.capped:
+        res.exhaustive = False
+        res.count("trees_capped")
+    return stats
+
+
+def _check_entry(item: dict, tier: str) -> Result:
+    """The operations of one schema object through every entry point, in one of two access orders.
+
+    fwd: get_all_operations, statistic, lookups (Query fields first), then the strategies of the maps and of the schema;
+    rev: statistic, get_all_operations, the strategies (Mutation map first), then the lookups in reverse order.
+    Every label is looked up twice (schema[T][f], then through a map object that is held); the second result is drawn from.
+    """
+    from schemathesis.core.result import Ok
+
+    res = Result()
+    sdl, facts = ops_sdl(item)
+    _register({})
+    ref = graphql.build_schema(sdl)
+    labels, kinds, chain = facts["labels"], facts["kinds"], item["filters"]
+    qn, mn, sn = item["names"]
+    selected = reference_selected(labels, chain)
+    rev = item["order"] == "rev"
+    base = {"item": "entry", "order": item["order"]}
+    detail = {"sdl": sdl, "source": item["source"], "filters": chain, "order": item["order"]}
+    names_count: dict[str, int] = {}
+    for lb in labels:
+        names_count[lb.split(".", 1)[1]] = names_count.get(lb.split(".", 1)[1], 0) + 1
+    try:
+        schema = apply_filters(load_real(sdl, item["source"]), chain)
+    except Exception as exc:  # noqa: BLE001
+        res.violation({**base, "kind": "valid_schema_or_filter_not_accepted", "error": type(exc).__name__}, detail | {"error": repr(exc)[:300]})
+        return res
+    if rev:
+        _ = schema.statistic.operations.total  # the statistic is measured before the operations are enumerated
+    offered = check_offered(res, schema, labels, selected, base, detail)
+    again = [r.ok().label for r in schema.get_all_operations() if isinstance(r, Ok)]
+    res.evaluations += 1
+    if sorted(again) != sorted(lb for lb, _ in offered):
+        res.violation({**base, "kind": "second_enumeration_offers_other_operations"}, detail | {"first": [lb for lb, _ in offered], "second": again})
+    if len(schema) != len(labels):
+        res.violation({**base, "kind": "len_of_schema_is_not_total"}, detail | {"len": len(schema), "expected": len(labels)})
+    res.outcomes.add(f"selected:{min(len(selected), 2)}")
+    roots = [qn] + ([mn] if item["m"] is not None else [])
+    cfg = {"allow_null": False, "allow_x00": True, "codec": "utf-8", "rot": 0}
+    d = 2
+
+    def case_judge(allowed: list[str], via: str, seen: set) -> Any:
+        def on_case(ex: Any) -> None:
+            label = ex.value.operation.label
+            if label not in allowed:
+                res.violation({**base, "kind": "strategy_yields_case_of_operation_that_is_not_offered", "via": via,
+                               "is_root_field": label in labels}, detail | {"case_label": label, "allowed": allowed, "body": repr(ex.value.body)[:200]})
+                return
+            seen.add(label)
+            res.count(f"{via}_cases")
+            field_name = label.split(".", 1)[1]
+            judge(res, ref, ex.value, {"label": label, "kind": kinds[label], "field": field_name}, cfg, {},
+                  {**base, "via": via, "field_name_in_both_roots": names_count[field_name] > 1},
+                  detail | {"choices": ex.choices, "label": label, "via": via, "cfg": cfg})
+        return on_case
+
+    def strategies() -> None:
+        if not chain:
+            # the mapping interface is judged on the unfiltered schema only (the property does not say that schema[T] is filtered)
+            for t in (list(reversed(roots)) if rev else roots):
+                own = [lb for lb in labels if lb.split(".", 1)[0] == t]
+                seen: set = set()
+                try:
+                    strategy = schema[t].as_strategy(generation_config=_gen_config(cfg))
+                except Exception as exc:  # noqa: BLE001
+                    res.violation({**base, "kind": "map_strategy_not_built", "error": type(exc).__name__}, detail | {"type": t, "error": repr(exc)[:300]})
+                    continue
+                stats = _explore_judged(res, strategy, ROT_PLAIN[0], d, tier, case_judge(own, "map_strategy", seen))
+                if not stats.capped and seen != set(own):
+                    # every alternative of the first choice point is taken at d >= 1: an operation never seen is not offered by the map
+                    res.violation({**base, "kind": "map_strategy_never_produces_a_field_of_its_root_type", "missing": len(set(own) - seen)},
+                                  detail | {"type": t, "seen": sorted(seen), "expected": own})
+        if selected:
+            seen2: set = set()
+            try:
+                strategy = schema.as_strategy(generation_config=_gen_config(cfg))
+            except Exception as exc:  # noqa: BLE001
+                res.violation({**base, "kind": "schema_strategy_not_built", "error": type(exc).__name__}, detail | {"error": repr(exc)[:300]})
+                return
+            stats = _explore_judged(res, strategy, ROT_PLAIN[0], d, tier, case_judge(selected, "schema_strategy", seen2))
+            if not stats.capped and seen2 != set(selected):
+                res.violation({**base, "kind": "schema_strategy_never_produces_a_selected_operation", "missing": len(set(selected) - seen2)},
+                              detail | {"seen": sorted(seen2), "expected": selected})
+        else:
+            res.count("schema_strategy_skipped_nothing_selected")  # property is silent on a strategy over zero operations
+
+    def mapping() -> None:
+        if chain:
+            return
+        res.evaluations += 1
+        got_roots = list(schema)
+        if sorted(got_roots) != sorted(roots):
+            res.violation({**base, "kind": "root_types_offered_by_the_mapping_differ", "subscription_offered": item["sub"] and sn in got_roots},
+                          detail | {"got": got_roots, "expected": roots})
+        via_map = []
+        for t in got_roots:
+            try:
+                fields = list(schema[t])
+                if len(schema[t]) != len(fields):
+                    res.violation({**base, "kind": "len_of_map_differs_from_its_iteration"}, detail | {"type": t})
+                via_map += [f"{t}.{f}" for f in fields]
+            except Exception as exc:  # noqa: BLE001
+                res.violation({**base, "kind": "offered_root_type_does_not_resolve", "error": type(exc).__name__}, detail | {"type": t})
+        if sorted(via_map) != sorted(labels):
+            res.violation({**base, "kind": "fields_offered_by_the_mapping_differ_from_root_fields", "extra": len(set(via_map) - set(labels)),
+                           "missing": len(set(labels) - set(via_map))}, detail | {"got": via_map, "expected": labels})
+        res.count("mapping_iteration_checked")
+        if item["sub"]:
+            try:
+                sub_map = schema[sn]
+                sub_fields = list(sub_map)
+            except Exception:  # noqa: BLE001 - the expected outcome: a subscription root is no operation map
+                res.count("subscription_lookup_rejected")
+            else:
+                res.violation({**base, "kind": "subscription_root_resolves_as_operation_map"}, detail | {"fields": sub_fields})
+
+    def lookups() -> None:
+        order = list(reversed(selected)) if rev else list(selected)
+        for label in order:
+            type_name, field_name = label.split(".", 1)
+            shared = names_count[field_name] > 1
+            sig = {**base, "field_name_in_both_roots": shared}
+            res.evaluations += 1
+            try:
+                first = schema[type_name][field_name]
+                held = schema[type_name]
+                second = held[field_name]
+            except Exception as exc:  # noqa: BLE001
+                res.violation({**sig, "kind": "offered_label_does_not_resolve", "error": type(exc).__name__}, detail | {"label": label})
+                continue
+            wrong = [n for n, op in (("first", first), ("second", second)) if op.label != label]
+            if wrong:
+                res.violation({**sig, "kind": "offered_label_resolves_to_other_operation", "lookup": "+".join(wrong)},
+                              detail | {"label": label, "first": first.label, "second": second.label})
+                continue
+            res.count("labels_looked_up_twice")
+            if rev and shared:
+                res.count("shared_field_name_looked_up_mutation_first")
+            if any(lb != label and lb.lower() == label.lower() for lb in labels):
+                res.count("labels_with_case_variant_resolved")
+            expect = {"label": label, "kind": kinds[label], "field": field_name}
+            lcfg = {"allow_null": True, "allow_x00": True, "codec": "utf-8", "rot": 0}
+            strategy = second.as_strategy(generation_config=_gen_config(lcfg))
+            _explore_judged(res, strategy, ROT_PLAIN[0], 0, tier,
+                            lambda ex, sig=sig, expect=expect, label=label: judge(
+                                res, ref, ex.value, expect, lcfg, {}, {**sig, "via": "second_lookup"},
+                                detail | {"choices": ex.choices, "label": label, "via": "second_lookup"}))
+
+    mapping()
+    for step in ((strategies, lookups) if rev else (lookups, strategies)):
+        step()
+    return res
+
+
+def _effective(stored: dict, call: dict | None) -> dict:
+    return dict(call) if call is not None else dict(stored)
+
+
+def _check_multi(item: dict, tier: str) -> Result:
+    res = Result()
+    base = {"item": "multi", "mode": item["mode"]}
+    if item["mode"] == "two":
+        # two schema objects alive at once; A stores "off" settings, B keeps the defaults; drawn alternately without per-call settings
+        loaded: dict[str, Any] = {}
+        _register({})
+        for key in ("a", "b"):
+            spec = item[key]
+            sdl, facts = gen_sdl(spec)
+            stringy = _is_stringy(spec["args"], spec["ret"])
+            try:
+                if key == "b" and item.get("b_from") == "clone":
+                    # A already stores the "off" settings; the clone starts from them and is then told otherwise
+                    schema = loaded["A"][0].include(name=f"{facts['root_name']}.f")
+                    schema.configure(generation=_gen_config(_ON))
+                    res.count("two_schema_clone_items")
+                else:
+                    schema = load_real(sdl, spec["source"])
+            except Exception as exc:  # noqa: BLE001
+                res.violation({**base, "kind": "valid_schema_not_loaded", "error": type(exc).__name__}, {"sdl": sdl, "error": repr(exc)[:300]})
+                return res
+            cfg = dict(_OFF) if key == "a" else dict(_ON)
+            if key == "a":
+                schema.configure(generation=_gen_config(cfg))
+            loaded[key.upper()] = (schema, sdl, facts, graphql.build_schema(sdl), cfg, stringy)
+        for n, which in enumerate(item["draws"]):
+            schema, sdl, facts, ref, cfg, stringy = loaded[which]
+            expect = {"label": f"{facts['root_name']}.f", "kind": facts["kind"], "field": "f"}
+            detail = {"sdl": sdl, "other_sdl": loaded["B" if which == "A" else "A"][1], "draws": item["draws"], "draw": n, "which": which, "cfg": cfg}
+            chars = ROT_STRINGS[0] if stringy else ROT_PLAIN[0]
+            try:
+                strategy = schema[facts["root_name"]]["f"].as_strategy()
+            except Exception as exc:  # noqa: BLE001
+                res.violation({**base, "kind": "strategy_not_built", "error": type(exc).__name__}, detail | {"error": repr(exc)[:300]})
+                continue
+            sig = {**base, "schema": "stores_off_settings" if which == "A" else "permissive_settings", "after_other_schema_was_drawn": n > 0,
+                   "other_is_clone": item.get("b_from") == "clone"}
+            stats = _explore_judged(res, strategy, chars, 1, tier,
+                                    lambda ex, ref=ref, expect=expect, cfg=cfg, sig=sig, detail=detail, chars=chars: judge(
+                                        res, ref, ex.value, expect, cfg, {}, sig, detail | {"choices": ex.choices, "chars": chars}))
+            res.count("two_schema_draws")
+            if stats.valid == 0:
+                res.count("trees_without_valid_case_on_supported_shape")
+        return res
+    # mode seq: stored and per-call settings one after the other on ONE schema object
+    sdl, facts = gen_sdl(item)
+    _register({})
+    ref = graphql.build_schema(sdl)
+    stringy = _is_stringy(item["args"], item["ret"])
+    chars = ROT_STRINGS[0] if stringy else ROT_PLAIN[0]
+    try:
+        schema = load_real(sdl, item["source"])
+    except Exception as exc:  # noqa: BLE001
+        res.violation({**base, "kind": "valid_schema_not_loaded", "error": type(exc).__name__}, {"sdl": sdl, "error": repr(exc)[:300]})
+        return res
+    expect = {"label": f"{facts['root_name']}.f", "kind": facts["kind"], "field": "f"}
+    stored = dict(_ON)  # the defaults of GenerationConfig: nulls allowed, NUL allowed, utf-8
+    held = schema[facts["root_name"]]["f"] if item["hold"] else None
+    history: list[str] = []
+    for n, (action, cfg) in enumerate(CONFIG_SEQUENCES[item["seq"]]):
+        if action == "store":
+            schema.configure(generation=_gen_config(cfg))
+            stored = dict(cfg)
+            history.append("store_off" if cfg == _OFF else "store_on")
+            continue
+        effective = _effective(stored, cfg)
+        step = "plain" if cfg is None else ("call_off" if cfg == _OFF else "call_on")
+        detail = {"sdl": sdl, "source": item["source"], "seq": item["seq"], "step": n, "history": list(history), "cfg": effective, "hold": item["hold"]}
+        sig = {**base, "step": step, "stored": "off" if stored == _OFF else "on", "after": history[-1] if history else "nothing"}
+        history.append(step)
+        operation = held if held is not None else schema[facts["root_name"]]["f"]
+        try:
+            strategy = operation.as_strategy() if cfg is None else operation.as_strategy(generation_config=_gen_config(cfg))
+        except Exception as exc:  # noqa: BLE001
+            res.violation({**sig, "kind": "strategy_not_built", "error": type(exc).__name__}, detail | {"error": repr(exc)[:300]})
+            continue
+        stats = _explore_judged(res, strategy, chars, 1, tier,
+                                lambda ex, effective=effective, sig=sig, detail=detail: judge(
+                                    res, ref, ex.value, expect, effective, {}, sig, detail | {"choices": ex.choices, "chars": chars}))
+        res.count("config_sequence_draws")
+        if effective == _OFF and history[:-1] and any(h in ("call_on", "store_on") for h in history[:-1]):
+            res.count("strict_draw_after_permissive_settings")
+        if stats.valid == 0:
+            res.count("trees_without_valid_case_on_supported_shape")
+    return res
+
+
+# ------------------------------------------------------------------------------------------------------------------
 # vacuity
 # ------------------------------------------------------------------------------------------------------------------
 
@@ -834,6 +1223,10 @@ REQUIRED_COUNTERS = [
     "mutation_cases", "query_cases", "null_seen_when_allowed", "nul_seen_when_allowed", "non_ascii_seen", "cases_with_inline_fragment",
     "cases_with_nested_field_arguments", "trees_from_introspection", "filtered_item", "labels_resolved",
     "labels_resolved_with_shared_field_name", "custom_literal_checked[custom_registered]",
+    # review round 2
+    "labels_looked_up_twice", "shared_field_name_looked_up_mutation_first", "labels_with_case_variant_resolved", "map_strategy_cases",
+    "schema_strategy_cases", "mapping_iteration_checked", "subscription_lookup_rejected", "two_schema_draws", "two_schema_clone_items", "config_sequence_draws",
+    "strict_draw_after_permissive_settings", "cases_from_argument_with_default", "custom_literal_nested_checked",
     *[f"custom_literal_checked[{n}]" for n in KNOWN_CUSTOM],
 ]
 
